@@ -403,7 +403,9 @@ UNITS += [
 
 KANI = []
 # the ordering kernels of copy / merge / rewrite / repair live in C03's spec
-SATELLITES = [("C03", ["ModifierChange", "repair_snapshots", "copy_tail", "copy_blobs_reports_failed_writes", "rewrite_save_then_forget", "merge_trees_tail", "merge_snapshots_tail", "repair_index_order"])]
+SATELLITES = [("C03", ["ModifierChange", "repair_snapshots", "copy_tail", "copy_blobs_reports_failed_writes", "rewrite_save_then_forget", "merge_trees_tail", "merge_snapshots_tail", "repair_index_order"]),
+              # the byte-exact copy of every collected blob: BlobCopier::copy / copy_fast and the coalescing of the read ranges (units of C02's spec)
+              ("C02", ["blob_constants", "BlobLocation", "BlobLocations", "from_blob_location", "can_coalesce", "append", "coalesce", "PackToDo", "RepackReason", "PackInfo", "PrunePack", "CopyPackBlobs", "RestorePackInfo", "FileLocation", "copy_pack_blobs_coalesce", "copy_fast", "copy_slow"])]
 
 META = {"not_covered": [
     "merge: Tree::from_backend of the inputs (iterator adapters; the fill loop of the heap IS unit merge_fill_heap), which conflicting entry wins beyond 'one of the group' (the caller's cmp closure), the recursion into sub-directories (stub), BinaryHeap semantics (assumed); the heap order, the merge loop and merge_nodes ARE units",
